@@ -1,5 +1,13 @@
 package extract
 
+import (
+	"fmt"
+	"go/ast"
+	"go/token"
+	"strconv"
+	"strings"
+)
+
 func init() {
 	for _, n := range []string{"Parse", "eatWhitespace", "parseDependency", "parseRelation", "parsePossibility", "parseSubstvar", "parseMultiarch",
 		"parsePossibilityControllers", "parsePossibilityVersion", "parsePossibilityOperator", "parsePossibilityNumber", "parsePossibilityArchs",
@@ -12,4 +20,157 @@ func init() {
 		{"input", "Peek"}, {"input", "Next"}, {"Arch", "UnmarshalControl"}, {"Dependency", "UnmarshalControl"}, {"Dependency", "MarshalControl"}, {"Arch", "MarshalControl"}} {
 		fingerprints["dependency."+m[0]+"."+m[1]] = fpSpec{dir: "dependency", recv: m[0], name: m[1]}
 	}
+}
+
+func init() { steps = append(steps, extractDependency) }
+
+// caseTable returns, for the first `switch <tag>` statement in fd whose tag prints as
+// tagText, the literal values of every case clause ("default" for the default clause).
+func (f *Facts) caseTable(fd *ast.FuncDecl, tagText string) ([][]string, bool) {
+	var out [][]string
+	found := false
+	if fd == nil {
+		return nil, false
+	}
+	ast.Inspect(fd.Body, func(n ast.Node) bool {
+		sw, ok := n.(*ast.SwitchStmt)
+		if !ok || found || sw.Tag == nil || f.src(sw.Tag) != tagText {
+			return true
+		}
+		found = true
+		for _, st := range sw.Body.List {
+			cc := st.(*ast.CaseClause)
+			if cc.List == nil {
+				out = append(out, []string{"default"})
+				continue
+			}
+			var vals []string
+			for _, e := range cc.List {
+				lit, ok := e.(*ast.BasicLit)
+				if !ok {
+					vals = append(vals, "?"+f.src(e))
+					continue
+				}
+				switch lit.Kind {
+				case token.CHAR:
+					r, _, _, _ := strconv.UnquoteChar(lit.Value[1:len(lit.Value)-1], '\'')
+					vals = append(vals, strconv.Itoa(int(r)))
+				case token.INT:
+					vals = append(vals, lit.Value)
+				case token.STRING:
+					s, _ := strconv.Unquote(lit.Value)
+					vals = append(vals, "s:"+s)
+				default:
+					vals = append(vals, "?"+lit.Value)
+				}
+			}
+			out = append(out, vals)
+		}
+		return false
+	})
+	return out, found
+}
+
+func leanTable(t [][]string) string {
+	rows := make([]string, len(t))
+	for i, r := range t {
+		rows[i] = leanStrList(r)
+	}
+	return "[" + strings.Join(rows, ", ") + "]"
+}
+
+// emitCases emits byte-valued case tables as `Option (List (List Nat))` (default = 256)
+// and string-valued ones as `Option (List (List String))`.
+func (f *Facts) emitCases(b *strings.Builder, factID, leanName string, fd *ast.FuncDecl, tag string) {
+	t, ok := f.caseTable(fd, tag)
+	numeric := true
+	for _, row := range t {
+		for _, v := range row {
+			if v == "default" {
+				continue
+			}
+			if _, err := strconv.Atoi(v); err != nil {
+				numeric = false
+			}
+		}
+	}
+	if !ok {
+		typ := "Nat"
+		if tag != "peek" {
+			typ = "String"
+		}
+		fmt.Fprintf(b, "def %s : Option (List (List %s)) := none\n\n", leanName, typ)
+		f.fail(factID, "no `switch "+tag+"` statement found (shape not recognised)")
+		return
+	}
+	if numeric {
+		rows := make([]string, len(t))
+		for i, r := range t {
+			vals := make([]string, len(r))
+			for j, v := range r {
+				if v == "default" {
+					v = "256"
+				}
+				vals[j] = v
+			}
+			rows[i] = "[" + strings.Join(vals, ", ") + "]"
+		}
+		fmt.Fprintf(b, "def %s : Option (List (List Nat)) := some [%s]\n\n", leanName, strings.Join(rows, ", "))
+	} else {
+		fmt.Fprintf(b, "def %s : Option (List (List String)) := some %s\n\n", leanName, leanTable(t))
+	}
+	f.ok(factID)
+}
+
+func extractDependency(f *Facts) {
+	b := f.out("Dependency")
+	for _, fn := range []string{"eatWhitespace", "parseDependency", "parseRelation", "parsePossibility", "parseSubstvar", "parseMultiarch",
+		"parsePossibilityControllers", "parsePossibilityNumber", "parsePossibilityArchs", "parsePossibilityArch",
+		"parsePossibilityStageSet", "parsePossibilityStage"} {
+		f.emitCases(b, "dependency."+fn+":cases", fn+"_cases", f.funcDecl("dependency", fn), "peek")
+	}
+	f.emitCases(b, "dependency.parsePossibilityOperator:cases", "parsePossibilityOperator_cases", f.funcDecl("dependency", "parsePossibilityOperator"), "operator")
+	f.emitCases(b, "dependency.SatisfiedBy:cases", "satisfiedBy_cases", f.method("dependency", "VersionRelation", "SatisfiedBy"), "v.Operator")
+	// SatisfiedBy: the comparison returned per operator
+	sb := f.method("dependency", "VersionRelation", "SatisfiedBy")
+	var rets []string
+	if sb != nil {
+		ast.Inspect(sb.Body, func(n ast.Node) bool {
+			if cc, ok := n.(*ast.CaseClause); ok && len(cc.Body) == 1 {
+				if r, ok := cc.Body[0].(*ast.ReturnStmt); ok && len(r.Results) == 1 {
+					rets = append(rets, strings.ReplaceAll(f.src(r.Results[0]), " ", ""))
+				}
+			}
+			return true
+		})
+	}
+	if len(rets) > 0 {
+		fmt.Fprintf(b, "def satisfiedBy_returns : Option (List String) := some %s\n\n", leanStrList(rets))
+		f.ok("dependency.SatisfiedBy:returns")
+	} else {
+		fmt.Fprintf(b, "def satisfiedBy_returns : Option (List String) := none\n\n")
+		f.fail("dependency.SatisfiedBy:returns", "case bodies are not single return statements")
+	}
+	// how names are accumulated: string([]byte{…}) (bytes kept) vs string(byte) (re-encoded)
+	n, m := 0, 0
+	for _, af := range f.parseDir("dependency") {
+		ast.Inspect(af, func(nd ast.Node) bool {
+			ce, ok := nd.(*ast.CallExpr)
+			if !ok || len(ce.Args) != 1 {
+				return true
+			}
+			if id, ok := ce.Fun.(*ast.Ident); ok && id.Name == "string" {
+				src := strings.ReplaceAll(f.src(ce.Args[0]), " ", "")
+				if src == "input.Next()" {
+					n++
+				}
+				if src == "[]byte{input.Next()}" {
+					m++
+				}
+			}
+			return true
+		})
+	}
+	fmt.Fprintf(b, "/-- number of `string(input.Next())` (re-encoding) and `string([]byte{input.Next()})` (byte-preserving) sites -/\ndef nameAccumulation : Nat × Nat := (%d, %d)\n\n", n, m)
+	f.ok("dependency.parser:accumulation")
 }
